@@ -45,6 +45,11 @@ pub enum Op {
         /// negotiation, which the 10 s negotiation timeout bounds): the answer is awaited for 13 s instead of 4 s
         #[serde(default)]
         one_sided: bool,
+        /// the opener's own user answers the validation of the reverse substream only this many milliseconds after the
+        /// open request (its policy must be 'never answer'); with 10 300 and more the remote's 10 s negotiation timeout
+        /// has already given up. Judged for a late Accept only (a Reject falls under the known finding).
+        #[serde(default)]
+        late_answer: Option<(u16, bool)>,
     },
 }
 
@@ -70,7 +75,7 @@ fn strategy() -> impl Strategy<Value = Case> {
         4 => Just(Op::Reconnect),
         5 => prop_oneof![Just(0u16), Just(3), Just(20), Just(120)].prop_map(|ms| Op::Sleep { ms }),
         1 => (node.clone(), prop_oneof![Just(150u16), Just(1800)]).prop_map(|(node, ms)| Op::Freeze { node, ms }),
-        2 => (node, prop::option::weighted(0.4, (0u8..2, prop_oneof![Just(0u8), Just(1), Just(3), Just(10), Just(30)]))).prop_map(|(node, cut)| Op::CleanOpen { node, cut, one_sided: false }),
+        2 => (node, prop::option::weighted(0.4, (0u8..2, prop_oneof![Just(0u8), Just(1), Just(3), Just(10), Just(30)]))).prop_map(|(node, cut)| Op::CleanOpen { node, cut, one_sided: false, late_answer: None }),
     ];
     (
         [prop::bool::weighted(0.3), prop::bool::weighted(0.3)],
@@ -92,7 +97,7 @@ fn clean_strategy() -> impl Strategy<Value = Case> {
         1 => node.clone().prop_map(|node| Op::OpenToBare { node }),
     ];
     let clean = (node.clone(), prop::option::weighted(0.7, (0u8..2, prop_oneof![Just(0u8), Just(1), Just(2), Just(4), Just(8), Just(15), Just(40)])))
-        .prop_map(|(node, cut)| Op::CleanOpen { node, cut, one_sided: false });
+        .prop_map(|(node, cut)| Op::CleanOpen { node, cut, one_sided: false, late_answer: None });
     let item = prop_oneof![1 => pre, 3 => clean];
     (
         [prop::bool::weighted(0.4), prop::bool::weighted(0.4)],
@@ -122,7 +127,7 @@ fn stale_strategy() -> impl Strategy<Value = Case> {
         any::<bool>(),                                  // answer before the reconnect?
         0u8..4,                                         // policy of the validator after the stale answer
         prop::collection::vec((0usize..8, extra), 0..4),
-        prop::collection::vec(node.clone().prop_map(|node| Op::CleanOpen { node, cut: None, one_sided: false }), 0..2),
+        prop::collection::vec(node.clone().prop_map(|node| Op::CleanOpen { node, cut: None, one_sided: false, late_answer: None }), 0..2),
         any::<u64>(),
     )
         .prop_map(|(opener, closer, accept, before, later_policy, extras, tail, seed)| {
@@ -168,7 +173,7 @@ fn silent_strategy() -> impl Strategy<Value = Case> {
         prop::bool::weighted(0.85), // accept?
         prop_oneof![Just(0u16), Just(5), Just(40)],
         prop::collection::vec((0usize..8, extra), 0..3),
-        prop::collection::vec((node.clone(), prop::bool::weighted(0.8)).prop_map(|(node, one_sided)| Op::CleanOpen { node, cut: None, one_sided }), 1..3),
+        prop::collection::vec((node.clone(), prop::bool::weighted(0.8)).prop_map(|(node, one_sided)| Op::CleanOpen { node, cut: None, one_sided, late_answer: None }), 1..3),
         any::<u64>(),
     )
         .prop_map(|(opener, opener_freezes, ms, accept, gap, extras, tail, seed)| {
@@ -191,6 +196,20 @@ fn silent_strategy() -> impl Strategy<Value = Case> {
             policy[v as usize] = 2;
             Case { auto_accept: [false, false], policy, ops, seed }
         })
+}
+
+/// The opener's own user answers the validation of the reverse substream late — around and after the moment the remote's
+/// 10 s negotiation timeout gives up — while the connection stays up.
+fn late_validation_strategy() -> impl Strategy<Value = Case> {
+    (0u8..2, prop_oneof![Just(9_700u16), Just(10_300), Just(10_800), Just(12_000)], prop::bool::weighted(0.9), any::<bool>(), any::<u64>()).prop_map(|(opener, after, accept, follow, seed)| {
+        let mut ops = vec![Op::CleanOpen { node: opener, cut: None, one_sided: false, late_answer: Some((after, accept)) }, Op::SetPolicy { node: opener, policy: 0 }];
+        if follow {
+            ops.push(Op::CleanOpen { node: 1 - opener, cut: None, one_sided: true, late_answer: None });
+        }
+        let mut policy = [0u8, 0u8];
+        policy[opener as usize] = 2;
+        Case { auto_accept: [false, false], policy, ops, seed }
+    })
 }
 
 pub const SIG_REJECT: &str = "C11/clean-open-request-never-answered/local-user-rejected-the-reverse-validation";
@@ -325,6 +344,7 @@ fn run_case_with(c: &Case, avoid_reject: bool) -> CaseResult {
     let mut policy = c.policy;
     let mut frozen_until: [Option<Instant>; 2] = [None, None];
     let mut froze_during_negotiation = false;
+    let mut late_validation = false;
     let wait_thaw = |f: &[Option<Instant>; 2]| {
         if let Some(u) = f.iter().flatten().max() {
             std::thread::sleep(u.saturating_duration_since(Instant::now()));
@@ -448,13 +468,18 @@ fn run_case_with(c: &Case, avoid_reject: bool) -> CaseResult {
                 ensure!(opened == 0 && failed == 1, "C11/open-request-to-peer-without-the-protocol-wrongly-answered", "node {n}: {opened} opened, {failed} open-failure events");
                 bare_opens += 1;
             }
-            Op::CleanOpen { node, cut, one_sided } => {
+            Op::CleanOpen { node, cut, one_sided, late_answer } => {
                 let n = *node as usize % 2;
                 let m = 1 - n;
                 if policy[m] == 2 {
                     continue; // the remote never answers validations: resolves only by the 10 s negotiation timeout
                 }
-                if avoid_reject && (policy[n] == 1 || policy[n] == 2) && !c.auto_accept[n] {
+                if let Some((_, accept)) = late_answer {
+                    // needs: both users validate, the opener's never answers by itself, the remote accepts at once
+                    if c.auto_accept[n] || c.auto_accept[m] || policy[n] != 2 || policy[m] != 0 || (!*accept && avoid_reject) {
+                        continue;
+                    }
+                } else if avoid_reject && (policy[n] == 1 || policy[n] == 2) && !c.auto_accept[n] {
                     // known finding: the opener's own user rejects (or never answers) the validation of the reverse substream
                     steered = true;
                     continue;
@@ -477,6 +502,10 @@ fn run_case_with(c: &Case, avoid_reject: bool) -> CaseResult {
                 let mark = log.lock().len();
                 nodes[n].send(Cmd::NotifOpen(peers[m]));
                 let other = peers[m];
+                if let Some((after, accept)) = late_answer {
+                    nodes[n].send(Cmd::NotifAnswerLater { peer: other, accept: *accept, after: Duration::from_millis(*after as u64) });
+                    late_validation = true;
+                }
                 if let Some((closer, delay)) = cut {
                     if *delay > 0 {
                         std::thread::sleep(Duration::from_micros(*delay as u64 * 100));
@@ -485,7 +514,8 @@ fn run_case_with(c: &Case, avoid_reject: bool) -> CaseResult {
                     let _ = nodes[k].probes[0].send(ProbeCmd::ForceClose(peers[1 - k]));
                     open_then_cut += 1;
                 }
-                let answered = wait_until(&log, Duration::from_secs(if *one_sided { 13 } else { 4 }), |l| {
+                let wait_s = if let Some((after, _)) = late_answer { (*after as u64) / 1000 + 5 } else if *one_sided { 13 } else { 4 };
+                let answered = wait_until(&log, Duration::from_secs(wait_s), |l| {
                     l[mark.min(l.len())..].iter().any(|o| o.node == n && matches!(&o.kind, ObsKind::NotifOpened { peer, .. } | ObsKind::NotifOpenFailure { peer, .. } if *peer == other))
                 });
                 clean_checked += 1;
@@ -497,7 +527,7 @@ fn run_case_with(c: &Case, avoid_reject: bool) -> CaseResult {
                         "node {n} opened a stream to a connected peer with nothing in progress (remote policy {}, auto-accept {}) and got neither opened nor open-failure within {} s; events since: {:?}",
                         policy[m],
                         c.auto_accept[m],
-                        if *one_sided { 13 } else { 4 },
+                        wait_s,
                         {
                             let t0 = l.first().map(|o| o.t).unwrap_or_else(Instant::now);
                             let mut v: Vec<String> = l[mark.min(l.len())..].iter().map(|o| format!("{}:{}", o.node, short(&o.kind))).collect();
@@ -622,6 +652,8 @@ fn run_case_with(c: &Case, avoid_reject: bool) -> CaseResult {
         .nt(simultaneous || disconnect_during_validation || reject_then_reopen || open_then_cut > 0)
         .nt(froze_during_negotiation)
         .class_if(froze_during_negotiation, "peer-silent-during-negotiation")
+        .nt(late_validation)
+        .class_if(late_validation, "own-validation-answered-after-the-remote-gave-up")
         .class_if(simultaneous, "simultaneous-opens")
         .class_if(disconnect_during_validation, "disconnect-during-validation")
         .class_if(reject_then_reopen, "reject-then-reopen")
@@ -652,5 +684,6 @@ pub fn run(ctx: &mut Ctx) {
     ctx.campaign("scripts", CampaignCfg::new(t.pick(480, 10_000)).shards(16).shrink_iters(6), strategy, move |c: &Case| run_case_with(c, avoid));
     ctx.campaign("clean-opens", CampaignCfg::new(t.pick(240, 5_000)).shards(16).shrink_iters(6), clean_strategy, move |c: &Case| run_case_with(c, avoid));
     ctx.campaign("silent-peer", CampaignCfg::new(t.pick(96, 2_000)).shards(16).shrink_iters(4), silent_strategy, move |c: &Case| run_case_with(c, avoid));
+    ctx.campaign("late-validation", CampaignCfg::new(t.pick(16, 320)).shards(16).shrink_iters(1), late_validation_strategy, move |c: &Case| run_case_with(c, avoid));
     ctx.campaign("stale-validation", CampaignCfg::new(t.pick(160, 3_000)).shards(16).shrink_iters(6), stale_strategy, move |c: &Case| run_case_with(c, avoid));
 }
